@@ -2,8 +2,8 @@ from engine.runner import Ob
 
 F = "harness/C10_cait_sound.py"
 EXPLANATION = (
-    "CrossHair/z3 over pedal's real StretchyTreeMatcher.find_matches. Patterns are concrete instructor strings (44 pattern x "
-    "shape pairs over 11 student shapes: assignment with +, *, -, augmented assignment, if/else, for, call, method call, "
+    "CrossHair/z3 over pedal's real StretchyTreeMatcher.find_matches. Patterns are concrete instructor strings (63 pattern x "
+    "shape pairs over 14 student shapes: assignment with +, *, -, augmented assignment, if/else, for, call, method call, "
     "while, three statements, def/return; with _var_, __expr__, ___ placeholders, operand swaps, multi-statement patterns) "
     "and the student tree is built with ast constructors whose LEAVES ARE SYMBOLIC: three identifiers (strings <= 2 chars, "
     "any unicode) and two constants typed int|bool|float|str|None. For every AstMap returned an independent witness checker "
@@ -15,18 +15,21 @@ EXPLANATION = (
     "leaf coincidences (equal names, equal constants of different type, ...).")
 FUNCTIONS = ["pedal.cait.stretchy_tree_matching.StretchyTreeMatcher.find_matches/any_node_match/deep_find_match_*/shallow_match_*/map_merge",
              "pedal.cait.ast_map.AstMap", "pedal.cait.cait_node.CaitNode"]
-BOUNDS = {"quick": "24 pattern x shape pairs + 11 boundary identifiers", "thorough": "44 pairs + 11 boundary identifiers",
+BOUNDS = {"quick": "39 of the 63 pattern x shape pairs + 11 boundary identifiers + 10 sub-matching pairs", "thorough": "all 63 pairs (57..62 also with symbolic constants) + 11 boundary identifiers + 10 sub-matching pairs",
           "leaves": "3 identifiers <= 2 chars (any unicode), 2 constants int|bool|float|str|None"}
-OUTSIDE = ["student shapes beyond the 11 listed (depth <= 3, <= 3 statements)", "class definitions", "patterns longer than 3 statements",
+OUTSIDE = ["student shapes beyond the 14 listed (depth <= 3, <= 4 statements / 4 call arguments)", "class definitions", "patterns longer than 3 statements",
            "`pass` in a pattern is treated as 'any statement' (pedal's documented/tested behaviour)"]
 ASSUMPTIONS = ["student trees built with ast constructors stand for the programs CPython would parse to them", "FeedbackFieldWrapper copy-safety shim"]
 
-QUICK = [0, 1, 3, 4, 6, 8, 9, 13, 15, 16, 17, 19, 20, 23, 25, 28, 29, 30, 32, 33, 35, 36, 38, 41, 42, 43]
+QUICK = [0, 1, 3, 4, 6, 8, 9, 13, 15, 16, 17, 19, 20, 23, 25, 28, 29, 30, 32, 33, 35, 36, 38, 41, 42, 43, 44, 45, 46, 48, 49, 54, 55, 57, 58, 59, 60, 61, 62]
 
 
 def obligations(tier):
-    ks = QUICK if tier == "quick" else range(44)
-    obs = [Ob("C10.sound", F, "sound", 400, part=str(k), what="every returned match passes the witness checker; no match when the pattern's concrete content is absent (pattern/shape pair = partition)") for k in ks]
+    ks = QUICK if tier == "quick" else range(63)
+    obs = [Ob("C10.sound", F, "sound", 400 if tier == "quick" else 1200, part=str(k), what="every returned match passes the witness checker; no match when the pattern's concrete content is absent (pattern/shape pair = partition)") for k in ks if k < 57]
+    obs += [Ob("C10.sound_names", F, "sound_names", 400 if tier == "quick" else 1200, part=str(k), what="the same for the four-sibling / four-argument shapes (constant-free patterns; identifiers symbolic, constants concrete): a candidate rejected for a _name_ conflict must not disturb the sibling order") for k in ks if k >= 57]
+    if tier == "thorough":
+        obs += [Ob("C10.sound", F, "sound", 1800, part=str(k), what="pairs 57.. with symbolic constants as well") for k in range(57, 63)]
     for k in range(11):
         obs.append(Ob("C10.ident_boundary", F, "ident_boundary", 100, part=str(k), what="a near-placeholder identifier is concrete code: matches exactly programs using that identifier"))
     for k in range(10):
